@@ -241,6 +241,15 @@ PROPERTIES = {
                        mask=M_GRAD, exhaustive=True, require={"passes": 1000}),
             {"name": "scale_histories", "cases": FE.scale_cases(tier, seed + 1), "mask": M_GRAD,
              "what": "many passes over one graph with drops / clears, wide fan-out, deep chains", "require": {"passes": 40}},
+            {"name": "quiet_histories", "cases": FE.quiet_cases(seed + 4, 250 if tier == "quick" else 2500, nsteps=(6, 16), p_pass=0.35), "mask": M_GRAD,
+             "what": "random histories (and the pattern passes - clear through gradient_mut - passes) during which the harness reads nothing: every live handle is observed once, after the last step - results must not depend on being watched",
+             "require": {"passes": 500}},
+            {"name": "pass_sums_bitwise", "cases": FR.pass_sum_cases(tier, seed), "spec": "TraceReal", "real": True, "post": FR.relate_pass_sums,
+             "mask": {"pass-sum-differs", "real-value", "grad-presence"},
+             "what": "relation between runs, bit for bit in double precision: after two passes every gradient is the floating-point sum of what each pass leaves when it runs alone (three fresh instances per program: both passes, first only, second only)",
+             "require": {"pass_sums_compared": 50}},
+            tlc_family("tlc_update_histories", "GenEngine_upd", "C10u", simulate=(60 if tier == "quick" else 600, 20), seed=seed + 7,
+                       mask=M_GRAD, require={"passes": 500}),
             {"name": "random_histories", "cases": FE.random_cases(seed + 3, 600 if tier == "quick" else 6000, nsteps=(8, 22), p_pass=0.3),
              "mask": M_GRAD, "what": "random programs with many passes, clears and flag changes over a shared leaf pool",
              "require": {"passes": 1500}},
@@ -309,6 +318,9 @@ PROPERTIES = {
             {"name": "ownership_real", "cases": FR.real_tracking_cases(tier, seed + 1), "spec": "TraceReal", "real": True, "mask": M_OWN,
              "what": "ln / exp / sigmoid / softmax / reciprocal / powf / division: after a pass with stored gradients and the drop of every result the operand is the sole owner of its buffer",
              "require": {"owned": 20}},
+            {"name": "seed_alias_then_update", "cases": FE.seed_alias_update_cases(tier, seed), "mask": M_OWN,
+             "what": "the seed is a clone or a reshaped view of a live array; after the gradients were consumed by an update or cleared and the results dropped, that array owns its buffer again",
+             "require": {"owned": 60}},
             {"name": "nonfinite_loss", "cases": FR.real_nonfinite_loss_cases(tier, seed), "spec": "TraceReal", "real": True, "mask": M_OWN,
              "what": "evaluation loops in which one iteration's loss is infinite or NaN: after the model has moved on, that iteration's input and target own their buffers again",
              "require": {"owned": 20}},
